@@ -232,6 +232,11 @@ INTRACTABLE_TEMPLATES = [
     (["abij", "ai", "bj", "ck", "c"], "ijk"),
     (["abcij", "ai", "bj", "cij"], "ij"),
     (["abij", "aci", "bj", "c"], "ij"),
+    # sibling plate contexts: a variable shared only by factors in {i,j} and {i,k} has ordinal {i}
+    (["bik", "aij", "abik"], "ijk"),
+    (["cik", "abij", "acik", "bij"], "ijk"),
+    (["aij", "aik"], "ijk"),
+    (["aij", "abik", "bk"], "ijk"),
     # near misses (tractable)
     (["abij", "aij", "bj"], "ij"),
     (["abij", "ai", "bi"], "ij"),
@@ -378,7 +383,12 @@ def canon_factor(inputs, data):
     arr = arr.reshape(shape)
     order = sorted(range(len(names)), key=lambda i: names[i])
     arr = arr.transpose(order) if order else arr
-    return (tuple((names[i], shape[i]) for i in order), tuple(repr(v) for v in arr.reshape(-1)))
+    def key(v):
+        # beyond 2**52 float64 integer products are inexact (see num_equal): compare 9 significant digits
+        if isinstance(v, Fraction) and abs(v) > 2 ** 52:
+            return f"{float(v):.8e}"
+        return repr(v)
+    return (tuple((names[i], shape[i]) for i in order), tuple(key(v) for v in arr.reshape(-1)))
 
 
 def parse_answer(ans):
@@ -602,6 +612,10 @@ def evaluate(ctx, c, answers, use_driver=True):
                 ctx.count("fidelity:results-n/a")
             else:
                 ctx.count("fidelity:results-equal" if mine == theirs else "fidelity:results-differ")
+                if mine != theirs and len(ctx.extra.setdefault("results_differ_samples", [])) < 5:
+                    ctx.extra["results_differ_samples"].append(
+                        dict(case=c.describe(), model=[list(map(str, m)) for m in mine],
+                             impl=[list(map(str, t)) for t in theirs]))
         except Exception:
             ctx.count("fidelity:results-uncomparable")
 
